@@ -7,7 +7,7 @@
 //
 //	open pl <ok|junk|empty> maps <k> (<id> <listen> <target> <secret|-> <a|i> <rev 0|1> <exp 0|1|2>)*
 //	     conn <hs 0|1|2> <cid> req <mid|-> <secret|-> <token|-> ts <none | bridge <mid> <served 0|1> | remote <mid> | local <mid>>
-//	## ack <none|ok|fail> att <none|src|tgt|fwd> data <0|1> ret <switch|err|nil|pending>
+//	## ack <none|ok|fail> acks <n> att <none|src|tgt|fwd> on <mapping of the bridge that holds the requester|-> data <0|1> ret <switch|err|nil|pending>
 //
 // maps: the port mappings that exist WHEN THE REQUEST ARRIVES (active/inactive, revoked, expiry: 0 none, 1 past,
 // 2 future).  A bridge for mapping <mid> is set up beforehand by a legitimate listen client (and, when served, a
@@ -1223,12 +1223,12 @@ func runCaseInner(c *caseT) string {
 	}
 
 	ack, rest := readAck(r.cli.snapshot())
-	att := "none"
-	if _, s, t, ok := w.sm.VerifBridgeEnds(tunnelID); ok {
+	att, on := "none", "-"
+	if mid, s, t, ok := w.sm.VerifBridgeEnds(tunnelID); ok {
 		if t == r.id {
-			att = "tgt"
+			att, on = "tgt", dash(mid)
 		} else if s == r.id || s == r.srv.RemoteAddr().String() {
-			att = "src"
+			att, on = "src", dash(mid)
 		}
 	}
 	if att == "none" && (c.ts == "remote" || c.ts == "local" || c.ts == "expired" || c.late == "remote" || c.late == "route") {
@@ -1282,7 +1282,7 @@ func runCaseInner(c *caseT) string {
 		acks++
 		buf = more
 	}
-	return fmt.Sprintf("ack %s acks %d att %s data %s ret %s", ack, acks, att, b2s(data), ret)
+	return fmt.Sprintf("ack %s acks %d att %s on %s data %s ret %s", ack, acks, att, on, b2s(data), ret)
 }
 
 // ---------------------------------------------------------------- generators
@@ -1647,7 +1647,9 @@ func runAll(out *vc.Out, lines []string, tag string) {
 		out.Case(l, obs[i], l)
 		out.Count(tag)
 		f := strings.Fields(obs[i])
-		if len(f) >= 4 {
+		if len(f) >= 6 && f[0] == "ack" && f[4] == "att" {
+			out.Count("obs:ack=" + f[1] + ",att=" + f[5])
+		} else if len(f) >= 4 {
 			out.Count("obs:" + f[0] + "=" + f[1] + "," + f[2] + "=" + f[3])
 		} else {
 			out.Count("obs:" + obs[i])
